@@ -114,17 +114,34 @@ impl Inproc {
         sh
     }
 
-    /// Runs `script` on `sh` with stdout/stderr captured into files under the scratch root.
-    pub async fn run_on(&self, sh: &mut Sh, script: &str) -> RunOut {
+    /// Binds the shell's own (persistent) descriptors 0/1/2 to /dev/null and two capture files, the way a
+    /// real process would inherit them; `exec` redirections then act on the same table.
+    pub fn bind_stdio(&self, sh: &mut Sh) {
         let outp = self.root.join("stdout");
         let errp = self.root.join("stderr");
         let fout = std::fs::File::create(&outp).expect("create stdout file");
         let ferr = std::fs::File::create(&errp).expect("create stderr file");
         let fin = std::fs::File::open("/dev/null").expect("open /dev/null");
-        let mut params = sh.default_exec_params();
-        params.set_fd(0, fin.into());
-        params.set_fd(1, fout.into());
-        params.set_fd(2, ferr.into());
+        let of = sh.open_files_mut();
+        of.set_fd(0, fin.into());
+        of.set_fd(1, fout.into());
+        of.set_fd(2, ferr.into());
+    }
+
+    fn collect(&self, status: u8, flow: &'static str, err: Option<String>) -> RunOut {
+        RunOut {
+            stdout: std::fs::read(self.root.join("stdout")).unwrap_or_default(),
+            stderr: std::fs::read(self.root.join("stderr")).unwrap_or_default(),
+            status,
+            flow,
+            err,
+        }
+    }
+
+    /// Runs `script` on `sh` (as `run_string`) with stdout/stderr captured into files.
+    pub async fn run_on(&self, sh: &mut Sh, script: &str) -> RunOut {
+        self.bind_stdio(sh);
+        let params = sh.default_exec_params();
         let r = sh.run_string(script.to_string(), &brush_core::SourceInfo::default(), &params).await;
         drop(params);
         let (status, flow, err) = match r {
@@ -140,12 +157,41 @@ impl Inproc {
             }
             Err(e) => (255, "error", Some(format!("{e}"))),
         };
-        RunOut {
-            stdout: std::fs::read(&outp).unwrap_or_default(),
-            stderr: std::fs::read(&errp).unwrap_or_default(),
-            status,
-            flow,
-            err,
+        self.collect(status, flow, err)
+    }
+
+    /// Runs a script *file* the way the `brush` binary does (`Shell::run_script`, which also runs the
+    /// EXIT trap), then reports `last_exit_status()` exactly as brush-shell's entry point does.
+    pub async fn run_file_on(&self, sh: &mut Sh, path: &Path, args: &[String]) -> RunOut {
+        self.bind_stdio(sh);
+        let r = sh.run_script(path, args.iter()).await;
+        match r {
+            Ok(_) => {
+                let st = sh.last_exit_status();
+                self.collect(st, "file", None)
+            }
+            Err(e) => {
+                let mut stderr = sh.stderr();
+                let _ = sh.display_error(&mut stderr, &e);
+                self.collect(1, "file-error", Some(format!("{e}")))
+            }
+        }
+    }
+
+    /// `-c` mode through the same public entry point the binary uses.
+    pub async fn run_dash_c_on(&self, sh: &mut Sh, script: &str) -> RunOut {
+        self.bind_stdio(sh);
+        let r = sh.run_dash_c_command(script.to_string()).await;
+        match r {
+            Ok(_) => {
+                let st = sh.last_exit_status();
+                self.collect(st, "dash-c", None)
+            }
+            Err(e) => {
+                let mut stderr = sh.stderr();
+                let _ = sh.display_error(&mut stderr, &e);
+                self.collect(1, "dash-c-error", Some(format!("{e}")))
+            }
         }
     }
 
